@@ -805,3 +805,17 @@ Fixpoint tid_select_from (sel : nat -> bool) (i : nat) (ss : list (list rec)) : 
   | s :: r => (if sel i then s else []) :: tid_select_from sel (S i) r
   end.
 Definition tid_select (sel : nat -> bool) (ss : list (list rec)) : list (list rec) := tid_select_from sel 0 ss.
+
+(* ------------------------------------------------------------------ the internal fixup table *)
+(* fstack_entry looks the function up twice with the same result slot: first in sess->fixups (exec*, setjmp,
+   longjmp, fork, vfork, daemon ...: only to recognise those functions), then in the user's table sess->filters,
+   which overwrites the slot when it has an entry.  [fx] is what build_fixup_filter registers for a name:
+   uftrace_setup_trigger with a bare name = an entry without any action. *)
+Definition fixup_entry : rtrig := notrig.
+Definition entry_lookup (fx : rtrig) (is_fixup has_user : N -> bool) (c : cfg) (f : N) : rtrig :=
+  if has_user f then trig_of c f else if is_fixup f then fx else notrig.
+(* the options as fstack_entry sees them (the filter count of the fixup table is local: fmode_in is the user's) *)
+Definition cfg_seen (fx : rtrig) (is_fixup has_user : N -> bool) (c : cfg) : cfg :=
+  {| trig_of := entry_lookup fx is_fixup has_user c; fmode_in := fmode_in c; caller_filter := caller_filter c;
+     gdepth := gdepth c; threshold := threshold c; range_start := range_start c; range_stop := range_stop c;
+     loc_of := loc_of c; lmode_in := lmode_in c; is_plt := is_plt c; libcall := libcall c; no_merge := no_merge c |}.
